@@ -517,11 +517,17 @@ class _Sim:
         self.fingerprints = set()
         self.dropped_ids = set()
 
-    def materialise(self, path, text):
+    def materialise(self, path, text, replace=False):
         """The simulated file also exists on a real tmpfs (for code that stats or
         opens it without going through the seam); its timestamps come from the
         simulated clock at the granularity of the simulated file system."""
         real = os.path.join(self.tmpdir, os.path.basename(path))
+        if replace:
+            # new file under the old name (editor-style save): another inode
+            try:
+                os.unlink(real)
+            except OSError:
+                pass
         with builtins.open(real, "w", newline="") as f:
             f.write(text)
         gran = float(self.spec.get("fs_mtime_gran") or 1e-9)
@@ -968,7 +974,7 @@ def exec_op(sim, cl, i, traced):
                 res = _do_edit(sim, cl, i, base, argobj)
                 argobj = MISSING  # the caller's own edit: no argument-unchanged demand
         elif bkind == "fs_write":
-            sim.materialise(base["path"], spec["texts"][base["text"]])
+            sim.materialise(base["path"], spec["texts"][base["text"]], replace=bool(base.get("replace")))
             cl.fs_overlay[base["path"]] = base["text"]
             sim.fs_writes += 1
             rec["st"] = "harness"
